@@ -31,7 +31,7 @@ def make_run(steps, step_ms, raises, seed=None):
     import openhtf as htf
     from openhtf.core import measurements, monitors
     s = sched.Sched(policy=policy, max_steps=200000)
-    box = {}
+    box = {'raises': raises}
 
     def ms():
       return int(round((s.now - s.t0) * 1000))
@@ -129,8 +129,16 @@ def judge(box):
   rows = []
   if m.measured_value.is_value_set:
     rows = [(int(round(k)), v) for k, v in m.measured_value.value]
-  if rows != stores:
+  # (a kill that lands between the store and its log entry leaves one row more than logged stores: the
+  # value of the last call)
+  calls = [e[1] for e in box['log'] if e[0] == 'call']
+  extra = rows[len(stores):]
+  if rows[:len(stores)] != stores or len(extra) > 1 or (extra and (not calls or extra[0][1] != calls[-1])):
     bad.append('rows of the recorded monitor measurement differ from the rows written by the monitor thread')
+  ph_exp = 'ERROR' if box.get('raises') else 'PASS'
+  if rows and ph[0].outcome.name != ph_exp:
+    bad.append('the monitored phase is recorded %s, its body %s' % (ph[0].outcome.name, 'raised' if box.get('raises') else 'returned None'))
+  stores = rows
   exp = 'UNSET' if not stores else 'PASS'
   if m.outcome.name != exp:
     bad.append('monitor measurement outcome is %s with %d rows' % (m.outcome.name, len(stores)))
